@@ -52,6 +52,13 @@ func lifeRuns(tier string) []base {
 		{"price-subunit+zero", func() *Scenario { return scPrice(paramSet("0.1", "0.001"), "p1v", "p0", []Template{tOne, tRep2}, mainO, d, b, m) }},
 		{"mod-main", func() *Scenario { return scMod(defaultParams(), []Template{tMod1, tModPoor, tModCap}, modO, d, b, m) }},
 		{"msvc", func() *Scenario { return scMsvc(defaultParams(), d-1, b-1, m) }},
+		{"life-gov", func() *Scenario {
+			// governance changes the parameters in mid-flight: tax 0.1 -> 0.5, slash 0.001 -> 0.5, max timeout 3 -> 1
+			g := paramSet("0.5", "0.5")
+			g.MaxTimeout, g.Name = 1, "gov-tax0.5-slash0.5-maxtimeout1"
+			return withFunds(scLife(paramSet("0.1", "0.001"), []Template{tLong, tOne2}, AlphaOpts{RespKinds: []string{"ok", "bad"}, CtxOps: []string{"pause", "start"},
+				Withdraw: []string{"O2:"}, ParamChanges: []ParamSet{g}}, d, b, m), 30, 5)
+		}},
 	}
 }
 
